@@ -17,6 +17,18 @@ Engine      : the real server.Server on loopback UDP+TCP sockets with tiny ingre
               c10_engine_trace.patch) is recorded and validated by Trace_UdpJob.tla (ReplyIsOwn,
               SilentStaysSilent, AtMostOneSend, ownership walk, LeaseBound at every event; all slabs
               home at the end).  TCP observations are validated by Trace_TcpConn.tla.
+Gap dimensions (seeded C10-r3-1, C10-r3-3, C11-r3-3; harness/c10/gap_test.go):
+  UdpSlab.txhd / ClearHdr, packet kind "failhit"  a reply composed IN PLACE in the slab's leased TX buffer (the failure cache's
+              byte rung) keeps the flags word an earlier reply wrote unless the composer clears it: ReplyHeaderIsOwn (model:
+              MC_hdr / MC_regress_hdrnotcleared; engine: "a-" names answered AD=1, "x-" names failing, a flags-word predicate on
+              every reply of every transport, the sweep passes AD=1 then a failure-cache reply over every slab; recorded walk).
+  UdpJob packet kind "trunc" / TruncRelease        a datagram larger than the slab's RX buffer is dropped by its reader AND the
+              slab goes back: NoHeldSlabs (MC_trunc / MC_regress_truncleak; engine: oversize datagrams in every UDP load --
+              C11's engine walk included --, after the load no more slabs out than the readers can arm (AllHome on the walk),
+              probes answered, lease count zero after the stop).
+  TcpConn Stall / TimeoutSticky                    the client stops reading, a write made with replies in hand meets its bound:
+              the error is final, StreamEndsAtFailedWrite (MC_stall / MC_regress_timeoutnotsticky; engine: the writes that time
+              out in MC_script_stall's graph, as size-class cycles, pipelined on connections that are not read for 3.2 s).
 """
 import json
 import os
@@ -72,6 +84,8 @@ def engine_configs(tier, seed):
         c.update(tcpSmall=2, tcpLarge=1, udpClients=10 if not thorough else 16, tcpClients=4 if not thorough else 8,
                  rounds=r, burst=6, tcpConnsEach=6 if not thorough else 30, tcpFrames=8,
                  perturb=True, traceLimit=400000)
+        # datagrams larger than the slab's RX buffer in the UDP load (kind "trunc" of UdpJob.tla), whoever runs the driver
+        c["oversize"] = True
         # bursts holding a destination the kernel refuses (a raw-socket datagram with a non-loopback source address sent to the loopback listener; batched send only): after the traced load
         c["poison"] = (60 if not thorough else 400) if c["mode"] == "batch" else 0
     return cfgs
@@ -143,7 +157,50 @@ def stream_scripts(ctx):
     return out
 
 
+def stall_scripts(ctx):
+    """The writes that can run into the write bound while the client is not reading, from the labelled state graph of
+    TcpConn.tla's ScriptSpec with Stall on: every edge on which the ghost `cut` is set while `cstall` holds is a write that
+    timed out; its site (Serve = inside stage(): the reply being staged displaces what is held, or is written on its
+    own) and the size classes involved -- what was staged, then the reply being staged -- name a cycle.  The driver
+    pipelines each chosen cycle on a connection it does not read (quick: two cycles, the ones whose timed-out write is
+    the flush a displaced burst goes out with; thorough: all of them)."""
+    r, nodes, edges, inits = ctx.tlc_graph("TcpConn", "MC_TcpConn.tla", "MC_script_stall.cfg", workers=2, timeout=900, heap="4g")
+    cycles = {}
+    for src, dst, label in edges:
+        a, b = nodes[src], nodes[dst]
+        if not (a["cut"] == -1 and b["cut"] != -1 and a["cstall"]):
+            continue
+        site = label.split("(")[0]
+        staged = [f["sz"] for f in a["drain"]]
+        if site == "Serve":
+            cyc = tuple(staged + [a["fill"][0]["f"]["sz"]])
+        else:
+            cyc = tuple(staged)
+        if cyc:
+            cycles.setdefault((site, cyc), 0)
+            cycles[(site, cyc)] += 1
+    if not any(site == "Serve" for site, _ in cycles):
+        raise vf.MachineryError("MC_script_stall.cfg: no write inside stage() times out in the graph (%d states)" % len(nodes))
+    ctx.log("TcpConn ScriptSpec MC_script_stall.cfg: %d states, %d edges -> timed-out writes: %s" % (
+        len(nodes), len(edges), sorted("%s:%s" % (s, ",".join(c)) for s, c in cycles)))
+    serve = sorted(c for s, c in cycles if s == "Serve")
+    # flush-then-stage first (the last reply is not huge), shortest first: those are the writes only flush() judges
+    serve.sort(key=lambda c: (c[-1] == "huge", len(c), c))
+    if ctx.tier != "thorough":
+        # ... and one in which a huge reply displaces what is staged (flush, then the direct write)
+        pick = [c for c in serve if c[-1] != "huge"][:1] + [c for c in serve if c[-1] == "huge" and len(c) > 1][:1]
+    else:
+        pick = serve
+    out = [{"cycle": list(c), "site": "Serve"} for c in pick]
+    ctx.cov["replay"]["stall_scripts"] = {"timed_out_writes": len(cycles), "played": [",".join(c) for c in pick]}
+    for c in pick:
+        ctx._distinct.add("stall-cycle:" + ",".join(c))
+    return out
+
+
 DRAIN = 8 << 10
+STALL_FRAMES = 2600     # queries pipelined on a connection that is not read: their replies (2.7 .. 10.7 kB each) overrun the
+                        # socket buffers between the server and a client with a 4 KiB receive buffer many times over
 
 
 def edge_scripts():
@@ -200,7 +257,8 @@ def run_driver(ctx, pkg, test, inp, name, timeout):
     raise vf.MachineryError("driver %s produced no result (rc=%d)\n%s" % (test, rc, "\n".join(out.splitlines()[-80:])))
 
 
-UDP_INVARIANTS = ("ReplyIsOwn", "ReplyOptIsOwn", "SilentStaysSilent", "AtMostOneSend", "OwnershipWalk", "LeaseBound", "AllHome")
+UDP_INVARIANTS = ("ReplyIsOwn", "ReplyOptIsOwn", "ReplyHeaderIsOwn", "SilentStaysSilent", "AtMostOneSend", "OwnershipWalk",
+                  "LeaseBound", "AllHome")
 WHAT = {
     "ReplyOptIsOwn": "a datagram left a slab with a COOKIE option that was not built from the client cookie of the packet in "
                      "that slab's RX (the packet carried none, or a different one), or with an NSID / keepalive option the "
@@ -211,7 +269,10 @@ WHAT = {
     "AtMostOneSend": "a second datagram was sent for one packet",
     "OwnershipWalk": "udpJob.transition found the job in another state than the owner asserted (two owners / double release)",
     "LeaseBound": "more slabs were out than the admission cap allows",
-    "AllHome": "after the load stopped a slab was still queued/serving/staged, or the lease count does not match the readers' armed slabs",
+    "AllHome": "after the load stopped a slab was still queued/serving/staged, or the lease count does not match the readers' armed "
+               "slabs, or more slabs are out in `reading` than the run's readers can have armed between them (a slab held by nobody)",
+    "ReplyHeaderIsOwn": "a datagram left a slab with AD=1 although the packet in that slab's RX is not one whose answer is validated, or "
+                        "with the reserved bit set: flag bits an earlier reply left in the slab's TX buffer",
 }
 
 
@@ -223,31 +284,36 @@ def model_runs(ctx):
     big = dict(workers=4, timeout=3000, heap="12g")
     small = dict(workers=3, timeout=900, heap="6g")
     jobs = []        # (module_dir, spec, cfg, kwargs, expected violated invariants or None)
-    for cfg in ("MC_portable.cfg", "MC_batch.cfg", "MC_mixed.cfg", "MC_opt.cfg"):
+    for cfg in ("MC_portable.cfg", "MC_batch.cfg", "MC_mixed.cfg", "MC_opt.cfg", "MC_trunc.cfg", "MC_hdr.cfg"):
         jobs.append(("UdpJob", "MC_UdpJob.tla", cfg, small, None))
     if thorough:
         for cfg in ("MC_portable_panic.cfg", "MC_batch_cap4.cfg", "MC_batch_noinline.cfg", "MC_mixed3.cfg",
-                    "MC_portable_w2.cfg", "MC_batch_all.cfg", "MC_opt_c2.cfg", "MC_opt_batch.cfg"):
+                    "MC_portable_w2.cfg", "MC_batch_all.cfg", "MC_opt_c2.cfg", "MC_opt_batch.cfg", "MC_trunc_mixed.cfg"):
             jobs.append(("UdpJob", "MC_UdpJob.tla", cfg, big, None))
     # (a stale staged length also reaches the nil burst of an overflow serve: ReleaseOnce is the same defect's
     # second symptom, and which invariant TLC's parallel BFS reports first at equal depth is not deterministic)
     regress = [("MC_regress_noscrub.cfg", ("ReplyIsOwn", "SilentStaysSilent", "ReleaseOnce")),
                ("MC_regress_norawsa.cfg", ("ReplyIsOwn",)),
                ("MC_regress_both.cfg", ("SingleOwner", "AtMostOneSend", "ReleaseOnce")),
-               ("MC_regress_slotnotreset.cfg", ("ReplyOptIsOwn",))]
+               ("MC_regress_slotnotreset.cfg", ("ReplyOptIsOwn",)),
+               ("MC_regress_truncleak.cfg", ("NoHeldSlabs",)),
+               ("MC_regress_hdrnotcleared.cfg", ("ReplyHeaderIsOwn",))]
     if thorough:
         regress.append(("MC_regress_noscrub_batch.cfg", ("ReplyIsOwn", "SilentStaysSilent", "ReleaseOnce")))
         regress.append(("MC_regress_slotnotreset_batch.cfg", ("ReplyOptIsOwn",)))
     for cfg, want in regress:
         jobs.append(("UdpJob", "MC_UdpJob.tla", cfg, small, want))
-    for cfg in ("MC_quick.cfg", "MC_opt.cfg"):
+    for cfg in ("MC_quick.cfg", "MC_opt.cfg", "MC_stall.cfg"):
         jobs.append(("TcpConn", "MC_TcpConn.tla", cfg, small, None))
     if thorough:
-        for cfg in ("MC_thorough.cfg", "MC_opt_thorough.cfg"):
+        for cfg in ("MC_thorough.cfg", "MC_opt_thorough.cfg", "MC_stall_thorough.cfg"):
             jobs.append(("TcpConn", "MC_TcpConn.tla", cfg, big, None))
     for cfg, want in (("MC_regress_noflushwait.cfg", ("NothingHeldWhileBlocked",)),
                       ("MC_regress_directnoflush.cfg", ("WholeInOrderOnePerQuery",)),
-                      ("MC_regress_slotnotreset.cfg", ("ReplyOptIsOwn",))):
+                      ("MC_regress_slotnotreset.cfg", ("ReplyOptIsOwn",)),
+                      # (a reply dropped by the forgotten error shows as a gap -- WholeInOrderOnePerQuery -- or as frames
+                      # behind the failed write -- StreamEndsAtFailedWrite --, whichever TLC's parallel BFS meets first)
+                      ("MC_regress_timeoutnotsticky.cfg", ("WholeInOrderOnePerQuery", "StreamEndsAtFailedWrite"))):
         jobs.append(("TcpConn", "MC_TcpConn.tla", cfg, small, want))
 
     def one(job):
@@ -272,17 +338,23 @@ def model_runs(ctx):
 def slab_reuse_stats(lines):
     """How often, per recorded run, a slab answered a cookie-less OPT packet (or one without OPT) right after it had
     answered a packet that carried a client cookie: the reuse on which a slot that is not zeroed shows."""
-    stats, run, last = {}, "?", {}
+    stats, run, last, lastad = {}, "?", {}, {}
+    zero = {"cookie_then_plain": 0, "cookie_then_none": 0, "sends_with_cookie": 0, "ad_then_failing_name": 0}
     for ln in lines:
         if '"ev":"reset"' in ln:
-            run, last = json.loads(ln).get("cfg_name", "?"), {}
-            stats.setdefault(run, {"cookie_then_plain": 0, "cookie_then_none": 0, "sends_with_cookie": 0})
+            run, last, lastad = json.loads(ln).get("cfg_name", "?"), {}, {}
+            stats.setdefault(run, dict(zero))
             continue
         if '"ev":"send' not in ln:
             continue
         e = json.loads(ln)
         j, o = e.get("j"), e.get("rxopt", "")
-        st = stats.setdefault(run, {"cookie_then_plain": 0, "cookie_then_none": 0, "sends_with_cookie": 0})
+        st = stats.setdefault(run, dict(zero))
+        # the reuse on which a flags word that is not cleared shows: a reply to a failing name ("x-": the failure cache
+        # answers) leaves the slab whose previous datagram carried AD=1
+        if e.get("rk") == "x" and lastad.get(j):
+            st["ad_then_failing_name"] += 1
+        lastad[j] = bool(e.get("txad"))
         if o == "cookie":
             st["sends_with_cookie"] += 1
         if last.get(j) == "cookie" and o == "plain":
@@ -332,6 +404,11 @@ def validate_udp_trace(ctx, trace, prefix="", extended=False):
                      if not (e["ev"] == "release" or (e["ev"] in ("trans", "take") and e.get("to") == "reading"))]
             hist = [json.dumps(e) for e in stuck[:12]]
             slab = [e["j"] for e in stuck]
+            # no slab queued / serving, yet more out than the readers can have armed: slabs that are nobody's
+            out_reading = [e["j"] for e in lastev.values() if e not in stuck and e["ev"] != "release"]
+            if not stuck and bad.get("hold") is not None and len(out_reading) > bad["hold"]:
+                slab = "%d slabs out in `reading` (leased=%s), the readers can hold %s" % (len(out_reading), bad.get("ls"), bad["hold"])
+                hist = [json.dumps(lastev[j]) for j in sorted(out_reading)[:24]]
         ctx.violation("trace/" + r.violated,
                       "%s[%s] %s is false on a recorded walk of the real UDP engine (trace line %d, slab %s, event %s): %s"
                       % (prefix, run, r.violated, k, slab, bad.get("ev"), WHAT[r.violated]),
@@ -352,6 +429,9 @@ def validate_udp_trace(ctx, trace, prefix="", extended=False):
             if st["cookie_then_plain"] < 3 or st["sends_with_cookie"] < 10:
                 raise vf.MachineryError("engine run %s never recycled a slab from a cookie request to a cookie-less OPT "
                                         "request (ReplyOptIsOwn would be vacuous): %s" % (run, st))
+            if st["ad_then_failing_name"] < 3:
+                raise vf.MachineryError("engine run %s never sent the reply to a failing name from a slab whose previous datagram "
+                                        "carried AD=1 (ReplyHeaderIsOwn would be vacuous): %s" % (run, st))
     if drift:
         ctx.cov["drift"] += drift
         ctx.log("DRIFT: %d recorded steps differ from what UdpSlab.tla predicts (no property predicate failed)" % drift)
@@ -442,7 +522,7 @@ def validate_tcp_trace(ctx, trace, prefix="", extended=False, scripted=()):
                 ctx._distinct.add("stream-order:%s:%s" % (proto, o))
 
 
-def engines(ctx, prefix="", only=None, secure=True, extended=None, scripts=None):
+def engines(ctx, prefix="", only=None, secure=True, extended=None, scripts=None, stalls=None):
     """The engine load driver (and, with secure, the encrypted legs), then the recorded walks through the trace specs.
     extended (default: only when the property under check is C10) adds what is C10's alone: the OPT provenance
     predicate on every reply, the hygiene sweep, the TLC-enumerated stream scripts and ReplyOptIsOwn on the traces;
@@ -451,6 +531,8 @@ def engines(ctx, prefix="", only=None, secure=True, extended=None, scripts=None)
         extended = ctx.pid == "C10"
     if extended and scripts is None:
         scripts = stream_scripts(ctx)
+    if extended and stalls is None:
+        stalls = stall_scripts(ctx)
     trace = os.path.join(ctx.scratch, "udpjob_trace.ndjson")
     tcptrace = os.path.join(ctx.scratch, "tcpconn_trace.ndjson")
     for p in (trace, tcptrace):
@@ -463,10 +545,13 @@ def engines(ctx, prefix="", only=None, secure=True, extended=None, scripts=None)
             continue
         cfg = dict(cfg, traceOut=trace, tcpTraceOut=tcptrace)
         if extended:
-            cfg.update(optCheck=True, sweep=1 if ctx.tier != "thorough" else 2, scriptPar=4, scripts=[])
+            cfg.update(optCheck=True, sweep=1 if ctx.tier != "thorough" else 2, scriptPar=4, scripts=[], hdrCheck=True)
             if cfg["name"] in SCRIPT_RUNS.get(ctx.tier, SCRIPT_RUNS["quick"]):
                 cfg["scripts"] = scripts
                 scripted.add("tcp")
+                # connections that are not read while the server's write bound (2 s) passes; two at a time at most
+                # (each holds a small-class job while it is parked in its write)
+                cfg.update(stalls=stalls[:2] if ctx.tier != "thorough" else stalls, stallFrames=STALL_FRAMES, stallHoldMs=3200)
         res = run_driver(ctx, "./c10", "TestEngineLoad", cfg, "eng_" + cfg["name"], timeout=900)
         if res is None:
             continue
@@ -495,6 +580,17 @@ def engines(ctx, prefix="", only=None, secure=True, extended=None, scripts=None)
                 raise vf.MachineryError("engine run %s: no transmit group met a refused destination behind an accepted one (%s): "
                                         "the per-reply fallback after a partial sendmmsg was not exercised" % (
                                             cfg["name"], {k: v for k, v in c.items() if k.startswith("poison")}))
+        if not res.get("violations") and cfg.get("stalls"):
+            if c.get("stall_conns", 0) < len(cfg["stalls"]) or c.get("stall_all_arrived", 0) or c.get("stall_ended_idle", 0) \
+                    or c.get("stall_frames_received", 0) < 50:
+                raise vf.MachineryError("engine run %s: the connections that were not read did not meet the server's write bound "
+                                        "(vacuous): %s" % (cfg["name"], {k: v for k, v in c.items() if k.startswith("stall")}))
+        if not res.get("violations") and cfg.get("hdrCheck") and c.get("failure_rung_served", 0) < 20:
+            raise vf.MachineryError("engine run %s: the failure cache's byte rung composed only %s replies (ReplyHeaderIsOwn would be "
+                                    "vacuous)" % (cfg["name"], c.get("failure_rung_served")))
+        if not res.get("violations") and cfg.get("oversize") and (c.get("udp_sent_oversize", 0) < 8 or not c.get("leased_after_stop_checked")):
+            raise vf.MachineryError("engine run %s: only %s oversize datagrams were sent / the lease count after the stop was not "
+                                    "read (NoHeldSlabs would be vacuous)" % (cfg["name"], c.get("udp_sent_oversize")))
         if not res.get("violations") and cfg.get("scripts") and any(sc.get("fam") == "edge" for sc in cfg["scripts"]):
             if c.get("tcp_exact_replies_ok", 0) < 20 or c.get("tcp_exact_replies_off", 0) > c.get("tcp_exact_replies_ok", 0) // 10:
                 raise vf.MachineryError("engine run %s: the exact-size answers of the edge scripts missed their target lengths "
@@ -577,6 +673,7 @@ def run(ctx, replay):
     ]
     require_hook()
     scripts = stream_scripts(ctx)
+    stalls = stall_scripts(ctx)
     # the model runs do not depend on the tree under test: they go on beside the engine drivers
     box = {}
 
@@ -589,11 +686,13 @@ def run(ctx, replay):
     th = threading.Thread(target=models, name="c10-models")
     th.start()
     try:
-        engines(ctx, scripts=scripts)
+        engines(ctx, scripts=scripts, stalls=stalls)
     finally:
         th.join()
     if "err" in box:
         raise box["err"]
+    if os.environ.get("VERIF_C10_ONLY", "") == "engine":      # trials: the engine drivers and the UdpJob / TcpConn models only
+        return
     # exclusive ownership on the DoH / DoH3 / DoQ listeners (FrontEnd.tla): one reply per exchange, the reply of an
     # exchange is its own whatever else is parked on the connection; classes c06/* and fe/* are drift here
     import x06fe
